@@ -11,6 +11,7 @@ import (
 	"github.com/nspcc-dev/neo-go/pkg/core/fee"
 	"github.com/nspcc-dev/neo-go/pkg/core/native/nativehashes"
 	"github.com/nspcc-dev/neo-go/pkg/core/transaction"
+	"github.com/nspcc-dev/neo-go/pkg/crypto/hash"
 	"github.com/nspcc-dev/neo-go/pkg/crypto/keys"
 	"github.com/nspcc-dev/neo-go/pkg/io"
 	"github.com/nspcc-dev/neo-go/pkg/smartcontract/callflag"
@@ -71,6 +72,7 @@ type mods struct {
 }
 
 type rsigner struct {
+	spec     SignerSpec
 	kind     string
 	actor    *ck.Actor
 	hash     util.Uint160
@@ -248,7 +250,8 @@ func fakeHash(seed int) util.Uint256 {
 func (k *kit) policyInt(method string, args ...any) (int64, error) {
 	w := io.NewBufBinWriter()
 	emit.AppCall(w.BinWriter, nativehashes.PolicyContract, method, callflag.ReadStates, args...)
-	tx := transaction.New(w.Bytes(), 0)
+	script := w.Bytes()
+	tx := transaction.New(script, 0)
 	tx.Nonce = 0
 	tx.Signers = []transaction.Signer{{Account: ck.Accounts[0].Hash, Scopes: transaction.None}}
 	ic, err := k.bc.GetTestVM(trigger.Application, tx, nil)
@@ -256,7 +259,7 @@ func (k *kit) policyInt(method string, args ...any) (int64, error) {
 		return 0, err
 	}
 	defer ic.Finalize()
-	ic.VM.LoadWithFlags(w.Bytes(), callflag.ReadOnly)
+	ic.VM.LoadWithFlags(script, callflag.ReadOnly)
 	if err := ic.VM.Run(); err != nil {
 		return 0, fmt.Errorf("Policy.%s: %v", method, err)
 	}
@@ -349,6 +352,7 @@ func (k *kit) template(spec TxSpec, m mods) (*transaction.Transaction, []rsigner
 		if r.kind == "notary" {
 			scope = 2
 		}
+		r.spec = s
 		rs = append(rs, r)
 		tx.Signers = append(tx.Signers, k.scoped(r.hash, scope))
 	}
@@ -491,19 +495,32 @@ func (k *kit) build(spec TxSpec, m mods) (*built, error) {
 
 // sign produces a fresh transaction object (no cached hash/size) with the given network fee and real witnesses.
 func (k *kit) sign(tmpl *transaction.Transaction, rs []rsigner, netFee int64) *transaction.Transaction {
+	return k.signOver(tmpl, rs, netFee, nil)
+}
+
+// fixedHash is a Hashable with a given hash (used to sign the bytes of a non-minimal encoding).
+type fixedHash util.Uint256
+
+func (f fixedHash) Hash() util.Uint256 { return util.Uint256(f) }
+
+// signOver is sign with the signed item given explicitly (nil: the transaction itself).
+func (k *kit) signOver(tmpl *transaction.Transaction, rs []rsigner, netFee int64, item hash.Hashable) *transaction.Transaction {
 	tx := &transaction.Transaction{
 		Version: tmpl.Version, Nonce: tmpl.Nonce, SystemFee: tmpl.SystemFee, NetworkFee: netFee,
 		ValidUntilBlock: tmpl.ValidUntilBlock, Script: tmpl.Script,
 		Attributes: append([]transaction.Attribute{}, tmpl.Attributes...),
 		Signers:    append([]transaction.Signer{}, tmpl.Signers...),
 	}
+	if item == nil {
+		item = tx
+	}
 	for _, r := range rs {
 		switch {
 		case r.actor != nil:
-			tx.Scripts = append(tx.Scripts, transaction.Witness{InvocationScript: r.actor.Invocation(tx), VerificationScript: r.actor.Ver})
+			tx.Scripts = append(tx.Scripts, transaction.Witness{InvocationScript: r.actor.Invocation(item), VerificationScript: r.actor.Ver})
 		case r.kind == "notary":
 			w := io.NewBufBinWriter()
-			emit.Bytes(w.BinWriter, ck.RoleKeys[0].Priv.SignHashable(uint32(ck.Magic), tx))
+			emit.Bytes(w.BinWriter, ck.RoleKeys[0].Priv.SignHashable(uint32(ck.Magic), item))
 			tx.Scripts = append(tx.Scripts, transaction.Witness{InvocationScript: w.Bytes(), VerificationScript: []byte{}})
 		default:
 			tx.Scripts = append(tx.Scripts, transaction.Witness{InvocationScript: []byte{}, VerificationScript: []byte{}})
@@ -618,4 +635,38 @@ func txBytes(tx *transaction.Transaction) []byte {
 	w := io.NewBufBinWriter()
 	tx.EncodeBinary(w.BinWriter)
 	return w.Bytes()
+}
+
+// buildNonCanon builds the bytes of a valid transaction in a non-minimal encoding whose signatures cover the
+// hash of exactly these bytes and whose fee pays for exactly this size (what a sender submitting such bytes
+// through sendrawtransaction would produce). ok=false when the pick yields the canonical bytes.
+func (k *kit) buildNonCanon(spec TxSpec, m mods, p encPick) (raw []byte, name string, ok bool, err error) {
+	B, err := k.build(spec, m)
+	if err != nil {
+		return nil, "", false, err
+	}
+	canon, sites, _, err := encodeTx(B.tx, nil)
+	if err != nil {
+		return nil, "", false, err
+	}
+	alt, name, ok := altFor(sites, p, B.tx)
+	if !ok {
+		return nil, "", false, nil
+	}
+	r0, _, _, err := encodeTx(B.tx, alt)
+	if err != nil {
+		return nil, "", false, err
+	}
+	if len(r0) == len(canon) && string(r0) == string(canon) {
+		return nil, "", false, nil
+	}
+	nf := B.tx.NetworkFee + int64(len(r0)-len(canon))*k.bc.FeePerByte()
+	unsigned := k.signOver(B.tx, B.rs, nf, fixedHash{}) // right sizes, throw-away signatures
+	r1, _, hashable, err := encodeTx(unsigned, alt)
+	if err != nil {
+		return nil, "", false, err
+	}
+	final := k.signOver(B.tx, B.rs, nf, fixedHash(hash.Sha256(r1[:hashable])))
+	raw, _, _, err = encodeTx(final, alt)
+	return raw, name, true, err
 }
